@@ -109,6 +109,15 @@ func runC10P(r *simkit.Run, c Cfg) {
 			for j := 0; j < na; j++ {
 				m.Addrs = append(m.Addrs, must(multiaddr.NewMultiaddr(c10AllAddrs()[tp.Choose(len(c10AllAddrs()), "addr")])).Bytes())
 			}
+			emptyAddr := false
+			if tp.Chance(1, 10, "emptyAddr") {
+				// an empty multiaddr among the addresses (what SetAddrs makes
+				// of a nil or zero-length one): the sender refuses, or what
+				// arrives is something a receiver can read the addresses of
+				m.Addrs = append(m.Addrs, []byte{})
+				emptyAddr = true
+				r.Probe("gossip-message-with-an-empty-address")
+			}
 			if tp.Chance(1, 3, "orig") {
 				m.OrigPeer = Identity("V2").ID.String()
 			}
@@ -131,6 +140,10 @@ func runC10P(r *simkit.Run, c Cfg) {
 			scancel()
 			if err != nil && big {
 				r.Probe("gossip-send-refused-oversize")
+				continue
+			}
+			if err != nil && emptyAddr {
+				r.Probe("gossip-send-refused-empty-address")
 				continue
 			}
 			if err != nil {
@@ -163,6 +176,9 @@ func runC10P(r *simkit.Run, c Cfg) {
 		if err != nil {
 			r.Violate("c10.wire", "remote subscriber cannot decode a gossip announcement: %v", err)
 			continue
+		}
+		if _, err := m.GetAddrs(); err != nil {
+			r.Violate("c10.wire", "the addresses of a gossip announcement that Send reported as sent cannot be read by a receiver: %v", err)
 		}
 		got = append(got, enc(m))
 	}
